@@ -1,4 +1,71 @@
-"""C14 — not built yet."""
+"""C14 — field-mask library: queries and JSON transport agree with path semantics (DESIGN.md §5.14)."""
+import json, os
+from vlib import core
+
+THEOREMS = ["Props.C14." + t for t in [
+    "queries_match_paths", "order_independent", "error_iff", "json_roundtrip",
+    "no_panic_partial", "no_panic_repaired", "getpath_terminates_partial"]]
+
+PARTIAL = [
+    "no_panic (full statement false on the tree as found: 9 panic sites + 1 non-terminating loop; proved as no_panic_partial "
+    "under decidable hypotheses and as no_panic_repaired for the `Sites.repaired` configuration; negative witnesses decided in Props/C14.lean)",
+    "queries_match_paths (black-list masks additionally need NoTerminalStar: a final '*' does not reject; witness decided)",
+    "json_roundtrip (string key \"*\" is read back as the wildcard; keys whose strconv.Quote form is not JSON are outside the tree model)",
+]
+
+
 def run(ctx):
-    print("C14: no check built yet")
-    return 2
+    exe = ctx.go_build("c14")
+    ctx.partial += PARTIAL
+    ctx.trusted += [
+        "translator harness/cmd/c14 extract (probes each panic site of the real package; writes Generated/C14.lean `sites`)",
+        "correspondence harness harness/cmd/c14 run vs tv_c14 (descriptors via thrift_reflection.RegisterAST; every exported fieldmask API call under recover)",
+        "schema sent to the model = structs/typedefs/enums of the registered FileDescriptor (single file, no includes)",
+    ]
+    ctx.assumptions += [
+        "encoding/json: the harness decodes each document with a mirror of fieldMaskTransfer and hands the model the tree plus, per path, "
+        "bytes.Equal with \"$\"/\"*\" and the int32/int/string decodings; strconv.Itoa/Quote rendering is checked through the T op on every JSON-valid text",
+        "strconv.Unquote and utf8 decoding as modelled by FieldMask.unquote (checked by correspondence on raw byte strings)",
+        "thrift_reflection lookups as modelled by Schema.structOf/typedefOf/isEnum (first match by name; dotted names resolve to nothing)",
+        "typedef chains are acyclic (a cycle makes unwrapDesc loop; outcome `crash` in the model, never generated)",
+        "non-termination is observed as a 1 s CPU-time limit on a child process",
+    ]
+    if exe:
+        if ctx.replay:
+            rc, out = core.sh([exe, "replay", "-file", ctx.replay])
+            fails = json.loads(out.strip().split("\n")[-1]) if rc == 0 else []
+            if rc != 0:
+                raise core.MachineryError("c14 replay failed: " + out[-2000:])
+            for f in fails:
+                ctx.add_violation(f["key"], f["what"], f["input"], f["expected"], f["observed"])
+            ctx.cov["evaluations"] = 1
+            return ctx.finish(rule="replay of one field-mask case")
+        rc, gen = core.sh([exe, "extract"])
+        if rc != 0 or "def sites" not in gen:
+            ctx.obligation("translator:c14-extract", False, gen[-2000:])
+        else:
+            ctx.obligation("translator:c14-extract", True)
+            ctx.write_generated("C14", gen)
+            ctx.notes.append("panic-site table (true = panics on this tree): " + gen.split("{", 1)[1].split("}", 1)[0].strip())
+    built = ctx.lake_build(["ThriftVerif.Props.C14"], "lake-build:Props.C14")
+    drv = ctx.lake_build(["tv_c14"], "lake-build:tv_c14")
+    if built:
+        ctx.audit("C14", THEOREMS)
+        if ctx.tier == "thorough":
+            ctx.leanchecker(["ThriftVerif.Props.C14"])
+    if exe:
+        rc, out = core.sh([exe, "run", "-dir", ctx.work, "-seed", str(ctx.seed), "-tier", ctx.tier], timeout=3000)
+        if rc != 0:
+            raise core.MachineryError("c14 run failed: " + out[-2000:])
+        st = json.load(open(os.path.join(ctx.work, "stats.json")))
+        ctx.cov.update(evaluations=st["evaluations"], distinct_nontrivial=st["distinct_nontrivial"], samples=st["samples"],
+                       distribution=st["distribution"], exhaustive=False)
+        for f in (st.get("oracle_failures") or []):
+            ctx.add_violation(f["key"], f["what"], f["input"], f["expected"], f["observed"])
+        if drv:
+            model = ctx.run_model("tv_c14", os.path.join(ctx.work, "ops.txt"))
+            ctx.diff_lines("c14", os.path.join(ctx.work, "ops.txt"), os.path.join(ctx.work, "impl.txt"), model)
+    return ctx.finish(rule="scenarios = generated IDL (fixed + seeded random; negative and >63 ids, typedef chains, all map-key kinds) x root "
+                           "descriptor x white/black x path list (README grammar | byte-mutated | raw bytes) x ops N/Q/P/J/T/U; a case is "
+                           "non-trivial when a mask was built or a document accepted; distinct by sha256 of the VL line; oracle = path-set "
+                           "semantics Sel on paths known by construction, no panic, no hang, JSON round trip")
